@@ -200,6 +200,30 @@ CHECKS = {
             {"harness": "c12_kvmodel", "mode": "conc", "flavour": "asan", "runs": {"quick": 8000, "thorough": 800000}, "wall": {"quick": 15, "thorough": 900}, "seed_off": 2},
         ],
     },
+    "C15": {
+        "level": "exploration",
+        "rule": ("server job: each run = 1-3 connections carrying pipelines of 1-4 generated requests (methods, header-name case, 0-3 attributable fields, no body / Content-Length / "
+                 "chunked with six chunk-size patterns, upper/lower-case hex, leading zeros, chunk extensions, trailers, multi-zero last chunk; bodies 0..1500 bytes (6000 thorough) "
+                 "that may contain CR, LF and NUL) written to a real HttpServer through the simulated network in separately delivered segments: none, one drawn cut, many drawn "
+                 "cuts, cuts around every CRLF, a fixed stride, every byte, or - sweep runs - EVERY single cut position of one small stream, one fresh connection per position "
+                 "(strided in quick, all positions in thorough); the last request of a third of the connections is hostile: conflicting / listed / non-numeric / signed / hex / "
+                 "overflowing Content-Length, non-hex / signed / 0x / overflowing chunk sizes incl. the size that wraps the scan position, 2 MiB of unterminated header fields or "
+                 "of chunks; oracle: handlers saw exactly the method, path, fields and DECODED body encoded, once; a hostile request never reaches a handler and gets an error "
+                 "status or a close within 30 simulated seconds; oversize input ends in a close; afterwards a fresh connection is served (I/O thread alive, no exception escaped). "
+                 "client job: a scripted peer answers a real HttpClient (GET/HEAD/POST/DELETE, keep-alive reuse) with generated responses (200/201/404/500/204/304, interim 100 and "
+                 "103, Content-Length incl. identical duplicates, chunked as above, close-delimited, Connection: close) cut the same ways incl. single-cut sweeps; hostile responses "
+                 "must end in an exception, valid ones must be returned with exactly the status, fields and body encoded, each within 20 simulated seconds"),
+        "real": ["iora::network::HttpServer request framing (handleIncomingData, findChunkedRequestEnd), HttpRequest::fromWireFormat, worker pool", "iora::network::HttpClient response framing (frameResponse, determineFraming, advanceChunked, parseHeaderBlock)",
+                 "iora::network::Transport / TcpEngine underneath both"],
+        "stub": COMMON_STUB,
+        "assumptions": ["a request carrying both Transfer-Encoding: chunked and Content-Length is not generated (RFC 9112 lets a server either reject it or let chunked win)",
+                        "valid requests that precede a hostile one on the same connection are only checked if they reached a handler (the rejection may close the connection first)",
+                        "peak buffering is bounded indirectly: 2 MiB of unterminated input must end in a close (the server's cap is 1 MiB per session); allocator census not implemented"],
+        "jobs": [
+            {"harness": "c15_http", "mode": "server", "flavour": "asan", "runs": {"quick": 5000, "thorough": 400000}, "wall": {"quick": 45, "thorough": 2400}, "seed_off": 1},
+            {"harness": "c15_http", "mode": "client", "flavour": "asan", "runs": {"quick": 2500, "thorough": 250000}, "wall": {"quick": 70, "thorough": 2400}, "seed_off": 2},
+        ],
+    },
     "C19": {
         "level": "exploration",
         "rule": ("cache job: each run = one seeded history of 6-65 steps over 6 names (three spellings of one name differing only in case, a name that extends another) x 3 types x 2 "
